@@ -8,7 +8,8 @@ Schemas
   D  harness-defined: a diamond of sub-properties (Bottom < Left, Right < Top), an inverse pair (Top <-> TopInv),
      two transitive properties (Near; Anc with sub-property Parent and inverse Desc), a role taker (R plays A,
      RBottom < Bottom lives on the role, its super-properties on the role taker) and an inverse that is itself a
-     sub-property (Owns <-> OwnedBy < LinkedTo: the super-property is reachable only from an inferred relation)
+     sub-property (Owns <-> OwnedBy < LinkedTo: the super-property is reachable only from an inferred relation);
+     the role has a super-property field of its own (R.rright: Right) besides the ones on its role taker
   L  harness-defined, for C16: a list field and a set field with super-property and inverse, not transitive
 
 Harness classes use identity equality and hash to their index, so that `make_set` iterates in ascending index
@@ -167,6 +168,7 @@ def _declare_d():
         a: PdA
         idx: int = 0
         rbottom: PdB = None
+        rright: List[PdB] = field(default_factory=list)
 
         def __hash__(self):
             return self.idx
@@ -247,11 +249,14 @@ def _declare_d():
     PdA.owns = Owns(PdA, "owns")
     PdB.owned_by = OwnedBy(PdB, "owned_by")
     PdB.linked_to = LinkedTo(PdB, "linked_to")
+    # the role ALSO has a field of its own managed by a direct super-property of RBottom, while the role taker
+    # carries the intermediate (Bottom) and the sibling (Left) super-properties, which Right does not imply
+    PdR.rright = Right(PdR, "rright")
     classes = [PdA, PdB, PdR]
     fields = [(0, "top"), (0, "left"), (0, "right"), (0, "bottom"), (0, "near"), (0, "anc"), (0, "parent"),
-              (0, "desc"), (1, "top_inv"), (2, "rbottom"), (0, "owns"), (1, "owned_by"), (1, "linked_to")]
+              (0, "desc"), (1, "top_inv"), (2, "rbottom"), (0, "owns"), (1, "owned_by"), (1, "linked_to"), (2, "rright")]
     targets = {0: [1], 1: [1], 2: [1], 3: [1], 4: [0], 5: [0], 6: [0], 7: [0], 8: [0, 2], 9: [1], 10: [1], 11: [0],
-               12: [0]}
+               12: [0], 13: [1]}
     ctor = {0: lambda i, rt: PdA(i), 1: lambda i, rt: PdB(i), 2: lambda i, rt: PdR(rt, i)}
     return SchemaInfo("D", classes, fields, {2: "a"}, ctor, targets)
 
@@ -427,6 +432,72 @@ def _py_index(i: int) -> int:
     return i
 
 
+def _apply_cop(a, name: str, is_set: bool, op, objs) -> None:
+    """one write operation of the C16 grammar on field `name` of `a`, exactly as a user would write it"""
+    import itertools
+
+    k = op[0]
+    mk = (lambda xs: set(xs)) if is_set else (lambda xs: list(xs))
+    vals = [objs[int(x)] for x in op[1:]] if k not in ("insert", "setitem", "assignView") else None
+    if k == "append":
+        getattr(a, name).append(vals[0])
+    elif k == "add":
+        getattr(a, name).add(vals[0])
+    elif k == "extend":
+        getattr(a, name).extend(list(vals))
+    elif k == "update":
+        getattr(a, name).update(list(vals))
+    elif k == "insert":
+        getattr(a, name).insert(int(op[1]), objs[int(op[2])])
+    elif k == "setitem":
+        getattr(a, name)[int(op[1])] = objs[int(op[2])]
+    elif k == "assign":
+        setattr(a, name, mk(vals))
+    elif k == "assignSelf":
+        setattr(a, name, getattr(a, name))
+    elif k == "assignView":
+        # the assigned value is an iterable over the LIVE container (lazy, except dict.fromkeys)
+        v = op[1]
+        if v == "filt":
+            keep = {int(x) for x in op[2:]}
+            if len(keep) % 2 == 0:
+                setattr(a, name, (x for x in getattr(a, name) if x.idx in keep))
+            else:
+                setattr(a, name, filter(lambda x: x.idx in keep, getattr(a, name)))
+        elif v == "rev":
+            setattr(a, name, reversed(getattr(a, name)))
+        elif v == "iter":
+            setattr(a, name, iter(getattr(a, name)))
+        elif v == "chain":
+            setattr(a, name, itertools.chain(getattr(a, name), [objs[int(x)] for x in op[2:]]))
+        elif v == "keys":
+            setattr(a, name, dict.fromkeys(getattr(a, name)))
+        else:
+            raise ValueError("bad view")
+    elif k == "iadd":
+        # exactly what `a.f += xs` / `a.f |= xs` compile to
+        if is_set:
+            exec("a.%s |= v" % name, {}, {"a": a, "v": mk(vals)})
+        else:
+            exec("a.%s += v" % name, {}, {"a": a, "v": mk(vals)})
+    elif k == "iaddAlias":
+        # the operator applied to the container through another name: no re-assignment
+        c = getattr(a, name)
+        if is_set:
+            c |= mk(vals)
+        else:
+            c += mk(vals)
+    else:
+        raise ValueError("bad op")
+
+
+def _contents(oid, obj, name, is_set) -> str:
+    cont = [_idx(oid, x) for x in getattr(obj, name)]
+    if is_set:
+        cont = sorted(cont)
+    return "[" + ",".join(map(str, cont)) + "]"
+
+
 def run_c16_line(line: str) -> str:
     try:
         s = parse_sexp(line)
@@ -434,59 +505,27 @@ def run_c16_line(line: str) -> str:
         info = schema(field_of(items, "schema")[0])
         sg = _fresh_graph()
         objs_spec = field_of(items, "objs")
-        objs = build_world(info, objs_spec)
         f = int(field_of(items, "field")[0])
-        a = objs[int(field_of(items, "obj")[0])]
         name = info.fields[f][1]
         is_set = info.kinds[f] == "set"
-        mk = (lambda xs: set(xs)) if is_set else (lambda xs: list(xs))
+        if s[0] == "w2":
+            return _run_two(info, sg, items, objs_spec, f, name, is_set)
+        objs = build_world(info, objs_spec)
+        a = objs[int(field_of(items, "obj")[0])]
         for x in field_of(items, "init") or []:
             c = getattr(a, name)
             (c.add if is_set else c.append)(objs[int(x)])
         status = "ok"
         for op in field_of(items, "ops"):
-            k = op[0]
-            vals = [objs[int(x)] for x in op[1:]] if k not in ("insert", "setitem") else None
             try:
-                if k == "append":
-                    getattr(a, name).append(vals[0])
-                elif k == "add":
-                    getattr(a, name).add(vals[0])
-                elif k == "extend":
-                    getattr(a, name).extend(list(vals))
-                elif k == "update":
-                    getattr(a, name).update(list(vals))
-                elif k == "insert":
-                    getattr(a, name).insert(int(op[1]), objs[int(op[2])])
-                elif k == "setitem":
-                    getattr(a, name)[int(op[1])] = objs[int(op[2])]
-                elif k == "assign":
-                    setattr(a, name, mk(vals))
-                elif k == "assignSelf":
-                    setattr(a, name, getattr(a, name))
-                elif k == "iadd":
-                    # exactly what `a.f += xs` / `a.f |= xs` compile to
-                    if is_set:
-                        exec("a.%s |= v" % name, {}, {"a": a, "v": mk(vals)})
-                    else:
-                        exec("a.%s += v" % name, {}, {"a": a, "v": mk(vals)})
-                elif k == "iaddAlias":
-                    # the operator applied to the container through another name: no re-assignment
-                    c = getattr(a, name)
-                    if is_set:
-                        c |= mk(vals)
-                    else:
-                        c += mk(vals)
-                else:
-                    return "bad-op"
+                _apply_cop(a, name, is_set, op, objs)
+            except ValueError:
+                return "bad-op"
             except Exception as e:  # noqa: BLE001
                 status = "exc:" + type(e).__name__
                 break
         oid = {id(o): i for i, o in enumerate(objs)}
-        cont = [_idx(oid, x) for x in getattr(a, name)]
-        if is_set:
-            cont = sorted(cont)
-        out = "C[" + ",".join(map(str, cont)) + "]|" + observe_relations(info, sg, objs)
+        out = "C" + _contents(oid, a, name, is_set) + "|" + observe_relations(info, sg, objs)
         if status != "ok":
             out += "|" + status
         del objs
@@ -495,6 +534,39 @@ def run_c16_line(line: str) -> str:
         return "exc:RecursionError"
     except Exception as e:  # noqa: BLE001
         return "exc:" + type(e).__name__
+
+
+def _run_two(info, sg, items, objs_spec, f, name, is_set) -> str:
+    """two owners: `b` does not exist until `(adopt)`, which constructs it with field `name` = the live container of
+    `a` (the first assignment of b's field receives a container taken from another instance)"""
+    ia, ib = int(field_of(items, "objA")[0]), int(field_of(items, "objB")[0])
+    objs: List[Any] = []
+    for i, (c, rt) in enumerate(objs_spec):
+        objs.append(None if i == ib else info.ctor[int(c)](i, objs[int(rt)] if rt != "-" else None))
+    a = objs[ia]
+    for x in field_of(items, "init") or []:
+        c = getattr(a, name)
+        (c.add if is_set else c.append)(objs[int(x)])
+    for op in field_of(items, "ops"):
+        if op[0] == "adopt":
+            cls = info.classes[int(objs_spec[ib][0])]
+            objs[ib] = cls(ib, **{name: getattr(a, name)})
+        elif op[0] in ("A", "B"):
+            _apply_cop(objs[ia if op[0] == "A" else ib], name, is_set, op[1], objs)
+        else:
+            return "bad-op"
+    live = [o for o in objs if o is not None]
+    oid = {id(o): i for i, o in enumerate(objs) if o is not None}
+    out = "A" + _contents(oid, a, name, is_set) + "|B" + (
+        _contents(oid, objs[ib], name, is_set) if objs[ib] is not None else "[-]")
+    rels = set()
+    for r in sg.relations():
+        wf = r.wrapped_field
+        ff = info.field_index.get((wf.clazz.clazz, wf.public_name), 10 ** 6)
+        rels.add((ff, oid.get(id(r.source.instance), 10 ** 6), oid.get(id(r.target.instance), 10 ** 6)))
+    out += "|R[" + ",".join(f"{x}:{y}:{z}" for x, y, z in sorted(rels)) + "]"
+    del objs, live
+    return out
 
 
 def _worker_batch(args) -> List[str]:
